@@ -555,8 +555,27 @@ def check_text_api(fx, rep, rule, impl):
                   % (".enumerate()" if enum_form else "", "index 0" if enum_form else "the iteration in which flag `%s` still has its initial value" % S.tstr(flags[0][0]), len(pre_ops)),
                   expected="the first line is handled inside the loop and nothing is written before it")
     elif first_stmt is None:
-        rep.undecidable(rule, "%s/text/%s/first-line/shape" % (rule, impl), loc=F.short_file(b["sp"]),
-                        construct="no `if let Some(line) = lines.next()` statement before the loop")
+        # the first-line fragment is not a statement of this function (the body is delegated to a helper): it is read off the
+        # function-level paths instead - everything that happens before the line loop is entered
+        fp, seen_fp = [], set()
+        for st_, (k_, v_) in res:
+            marks = [i_ for i_, e_ in enumerate(st_.effects) if e_[0] in ("loopsum", "inloop")]
+            if marks and st_.effects[marks[0]][0] == "inloop":
+                continue
+            pre_effs = st_.effects[:marks[0]] if marks else st_.effects
+            key_ = (st_.conds, pre_effs)        # (an after-loop path carries exactly its own pre-loop conditions)
+            if key_ in seen_fp:
+                continue
+            seen_fp.add(key_)
+            fp.append((S.St(conds=key_[0], effects=pre_effs), (S.VAL, None)))
+        has_first = any(e_[0] == "call" and R.is_next(e_[1]) for st_, o_ in fp for e_ in st_.effects)
+        if not fp or not has_first:
+            rep.undecidable(rule, "%s/text/%s/first-line/shape" % (rule, impl), loc=F.short_file(b["sp"]),
+                            construct="no `lines.next()` before the loop")
+        else:
+            bad, n = fc.compare_paths(fp, ref_line(True), outcome, rw=R.rw_iter)
+            report_lines(rep, rule, "%s/text/%s/first-line" % (rule, impl), b, fp, bad,
+                         "throwable -> format_throwable(remap_throwable); else frame -> format_frames(remap_frame); else verbatim")
     else:
         sy2 = S.Sym(fx, opaque=lambda q: q in opaque, inline_mut=True)
         fp = sy2.ev(first_stmt, S.St())
@@ -585,10 +604,14 @@ def check_text_api(fx, rep, rule, impl):
                   found="%s: %s" % (verdict, how), expected="fmt::Result propagated with `?`", nontrivial=False)
     # the line source
     src = None
-    for n_ in F.walk(b["body"]):
-        if F.is_call(n_, "core::str::<impl str>::lines"):
-            src = n_
-    adaptors = [n_["fn"]["path"].split("::")[-1] for n_ in F.walk(b["body"]) if n_.get("k") == "Call" and "fn" in n_ and
+    # (the function and the private helpers its body is delegated to)
+    scan_bodies = [b] + [fx.bodies[q] for q in sorted(fx.reachable([p], enter=lambda q: q not in opaque)) if q != p and fx.bodies[q]["krate"] == "proguard"
+                         and q not in opaque and "{closure" not in q and fx.bodies[q].get("kind") in ("Fn", "AssocFn") and not fx.bodies[q].get("reachable_pub")]
+    for sb_ in scan_bodies:
+        for n_ in F.walk(sb_["body"]):
+            if F.is_call(n_, "core::str::<impl str>::lines"):
+                src = n_
+    adaptors = [n_["fn"]["path"].split("::")[-1] for sb_ in scan_bodies for n_ in F.walk(sb_["body"]) if n_.get("k") == "Call" and "fn" in n_ and
                 n_["fn"]["path"].startswith("std::iter::Iterator::") and n_["fn"]["path"].split("::")[-1] not in ("next",)]
     if enum_form:
         adaptors = [x for x in adaptors if x != "enumerate"]
